@@ -105,7 +105,7 @@ inductive SrvStep
   | shutdown
   | readErr
 
-def parseScript (s : String) : List SrvStep :=
+def parseSrvScript (s : String) : List SrvStep :=
   if s = "-" then []
   else (s.splitOn ",").map fun st =>
     if st.startsWith "!" then
@@ -164,7 +164,7 @@ def runSrv (tok : List String) : String × String :=
     let rtu := framing = "r"
     let cfg : ServerCfg Points := ⟨rtu, pointsHandler, parseAuth auth⟩
     let hs := parseUnits units
-    let steps := parseScript script
+    let steps := parseSrvScript script
     let go (respond : List (Nat × Points) → Frame → FrameOut Points) : String :=
       if rtu then srvOut (srvLoop (Rtu.parse .request) respond rtu .start RB.empty ⟨[], [], hs, none⟩ steps)
       else srvOut (srvLoop Mbap.parse respond rtu .begin RB.empty ⟨[], [], hs, none⟩ steps)
